@@ -17,6 +17,27 @@ pub fn check(h: &FHistory, ex: &FExec, obs: &mut Obs) -> Vec<Violation> {
     // per emitted segment: (base, first dts, sum of durations but last, n samples)
     let mut segs: Vec<(u64, u64, u64, usize)> = Vec::new();
     let mut init: Option<&Vec<u8>> = None;
+    // "A stable init segment" is a function of the configuration alone: whatever moment of the
+    // history it is first asked for (nothing written yet, samples queued, after a flush), it must
+    // be the one an identically configured muxer gives before its first write.
+    if h.ops.iter().any(|o| matches!(o, FOp::Init)) {
+        if let Ok(Ok(mut fresh)) = crate::exec::build_frag(&h.cfg) {
+            if let Ok(reference) = crate::exec::guard(|| fresh.init_segment()) {
+                for (i, (op, res)) in h.ops.iter().zip(ex.results.iter()).enumerate() {
+                    if let (FOp::Init, FRes::Bytes(b)) = (op, res) {
+                        if *b != reference {
+                            out.push(v(
+                                "init-segment-depends-on-history".into(),
+                                format!("op #{}: init segment ({} bytes) differs from the one an identically configured muxer gives before any write ({} bytes)", i, b.len(), reference.len()),
+                            ));
+                            break;
+                        }
+                        obs.count("init_requests_equal_to_fresh_muxer", 1);
+                    }
+                }
+            }
+        }
+    }
     for (i, (op, res)) in h.ops.iter().zip(ex.results.iter()).enumerate() {
         match (op, res) {
             (FOp::Write { pts, dts, sync, .. }, FRes::Ok) => {
